@@ -126,8 +126,8 @@ func controlsC13(cp *Prog, r *Report) {
 		ruleKeyFields(cp, cr, keyFieldsCfg{pkg: "cache", keyType: "planBad", initRecv: "planBad", initFn: "init", eqRecv: "planBad", eqFn: "equal", lookupRecv: "buf", lookup: "planBadCached", cacheRecv: "buf", cacheFld: "bad"})
 	}, "cache.buf.bad/planBad.feats", "cache.buf.bad/planBad.shaper.key")
 	expectControl(r, "R-KEY/globals", func(cr *Report) {
-		ruleKeyGlobals(cp, cr, keyFieldsCfg{pkg: "cache", keyType: "optGood", initRecv: "optGood", initFn: "init", eqRecv: "optGood", eqFn: "equal", cacheRecv: "optBuf", cacheFld: "good"}, "", "buildOptGood")
-		ruleKeyGlobals(cp, cr, keyFieldsCfg{pkg: "cache", keyType: "optBad", initRecv: "optBad", initFn: "init", eqRecv: "optBad", eqFn: "equal", cacheRecv: "optBuf", cacheFld: "bad"}, "", "buildOptBad")
+		ruleKeyGlobals(cp, cr, keyFieldsCfg{pkg: "cache", keyType: "optGood", initRecv: "optGood", initFn: "init", eqRecv: "optGood", eqFn: "equal", lookupRecv: "optBuf", lookup: "goodCached", cacheRecv: "optBuf", cacheFld: "good"}, "", "buildOptGood")
+		ruleKeyGlobals(cp, cr, keyFieldsCfg{pkg: "cache", keyType: "optBad", initRecv: "optBad", initFn: "init", eqRecv: "optBad", eqFn: "equal", lookupRecv: "optBuf", lookup: "badCached", cacheRecv: "optBuf", cacheFld: "bad"}, "", "noSuchConstructor")
 	}, "cache.optBuf.bad/CompatBad")
 	expectControl(r, "R-KEY/projection", func(cr *Report) {
 		for _, fn := range []string{"ShapeGood", "ShapeBad", "MetricsGood"} {
